@@ -1277,3 +1277,391 @@ func runPathCacheHoldsFullPaths(c *Ctx, rule string) {
 		c.Undecided(rule, "commits.Store.paths", "no insertion into the path cache found")
 	}
 }
+
+// ---- C11-V4: Validate checks the size of every primitive whose decoder faults on a wrong size.
+//
+// The primitive decoders of package zed trust the length of the body they are given:
+// DecodeBool indexes byte 0, DecodeFloat16/32/64 read 2/4/8 bytes, DecodeIP and DecodeNet panic
+// on an unexpected length.  Bytes from a ZNG stream reach them (through the ZSON/JSON/CSV
+// formatters, comparisons, casts) after Value.Validate accepted the value, so Validate has to
+// refuse a body of the wrong size.  The rule computes, on every run, the set of Decode<S>
+// functions that can fault on the length (explicit panic, constant index, fixed-width
+// binary read, none of them under a test of len) and requires that the validation visitor
+// reaches a function that compares the type with Type<S> and looks at len of the body.
+func runValidateChecksLeafSizes(c *Ctx, rule string) {
+	p := c.P
+	c.Rule(rule, "for every primitive decoder Decode<S>(zcode.Bytes) of package zed that faults on a body of the wrong length (explicit panic, constant index or fixed-width read not guarded by a test of len), the visitor of Value.Validate reaches a function that compares the type with Type<S> and tests len(body): validated input never makes a formatter or comparison panic on a leaf")
+	val := p.Func("(super.Value).Validate")
+	if val == nil {
+		c.Undecided(rule, "(super.Value).Validate", "anchor does not resolve")
+		return
+	}
+	reach := reachableStatic([]*ssa.Function{val}, func(f *ssa.Function) bool { return p.PkgOf(f) == "" })
+	// Type<S> globals compared in functions that also take len() of a zcode.Bytes value
+	checked := map[string]bool{}
+	for f := range reach {
+		hasLen := false
+		for _, ci := range allCalls(f) {
+			if bi, ok := ci.Common().Value.(*ssa.Builtin); ok && bi.Name() == "len" && strings.HasSuffix(ci.Common().Args[0].Type().String(), "zcode.Bytes") {
+				hasLen = true
+			}
+		}
+		if !hasLen {
+			continue
+		}
+		for _, b := range f.Blocks {
+			for _, in := range b.Instrs {
+				bo, ok := in.(*ssa.BinOp)
+				if !ok || bo.Op != token.EQL {
+					continue
+				}
+				for _, side := range []ssa.Value{bo.X, bo.Y} {
+					if g := globalLoaded(side); g != nil && strings.HasPrefix(g.Name(), "Type") {
+						checked[strings.TrimPrefix(g.Name(), "Type")] = true
+					}
+				}
+			}
+		}
+	}
+	n := 0
+	for _, fn := range p.FuncsIn("") {
+		if fn.Parent() != nil || fn.Signature.Recv() != nil || !strings.HasPrefix(fn.Name(), "Decode") || len(fn.Params) != 1 {
+			continue
+		}
+		if !strings.HasSuffix(fn.Params[0].Type().String(), "zcode.Bytes") {
+			continue
+		}
+		prm := fn.Params[0]
+		lenTested := func(at *ssa.BasicBlock) bool {
+			for d := at; d != nil; d = d.Idom() {
+				id := d.Idom()
+				if id == nil || len(id.Instrs) == 0 {
+					continue
+				}
+				if iff, ok := id.Instrs[len(id.Instrs)-1].(*ssa.If); ok {
+					isLen := func(v ssa.Value) bool {
+						call, ok := stripConv(v).(*ssa.Call)
+						if !ok {
+							return false
+						}
+						bi, ok := call.Common().Value.(*ssa.Builtin)
+						return ok && bi.Name() == "len" && call.Common().Args[0] == prm
+					}
+					if bo, ok := iff.Cond.(*ssa.BinOp); ok && (isLen(bo.X) || isLen(bo.Y)) {
+						return true
+					}
+				}
+			}
+			return false
+		}
+		faults := ""
+		for _, b := range fn.Blocks {
+			for _, in := range b.Instrs {
+				switch x := in.(type) {
+				case *ssa.Panic:
+					if x.Pos().IsValid() && !lenTested(b) {
+						faults = "explicit panic"
+					}
+				case *ssa.IndexAddr:
+					if x.X == prm && !lenTested(b) {
+						faults = "index into the body"
+					}
+				case *ssa.Index:
+					if x.X == prm && !lenTested(b) {
+						faults = "index into the body"
+					}
+				case *ssa.Call:
+					nm := calleeName(x.Common())
+					if strings.HasPrefix(nm, "(encoding/binary.littleEndian).Uint") || strings.HasPrefix(nm, "(encoding/binary.bigEndian).Uint") {
+						for _, a := range x.Common().Args {
+							if stripConv(a) == prm && !lenTested(b) {
+								faults = "fixed-width read of the body"
+							}
+						}
+					}
+				}
+			}
+		}
+		if faults == "" {
+			continue
+		}
+		n++
+		s := strings.TrimPrefix(fn.Name(), "Decode")
+		construct := "super." + fn.Name() + " faults on a wrong-size body"
+		if checked[s] {
+			c.OK(rule, construct, fn.Pos(), faults+"; Validate compares the type with Type"+s+" and tests len(body)")
+		} else {
+			c.Fail(rule, construct, fn.Pos(), fn.Name()+" can fault on the length of its argument ("+faults+"), and nothing reachable from Value.Validate compares a type with Type"+s+" next to a test of len(body): a ZNG value of that type with a body of the wrong size is accepted by the validating reader and then panics in the ZSON/JSON formatter, a comparison or a cast")
+		}
+	}
+	if n < 4 {
+		c.Undecided(rule, "primitive decoders of package zed", "fewer than four length-faulting Decode functions found ("+sprint(n)+")")
+	}
+}
+
+func globalLoaded(v ssa.Value) *ssa.Global {
+	v = stripConv(v)
+	if mi, ok := v.(*ssa.MakeInterface); ok {
+		v = stripConv(mi.X)
+	}
+	if l, ok := v.(*ssa.UnOp); ok && l.Op == token.MUL {
+		if g, ok := l.X.(*ssa.Global); ok {
+			return g
+		}
+	}
+	return nil
+}
+
+// ---- C16-K4 (= C14-K4): object and seek-index bounds are computed with the evaluator the sort uses.
+//
+// The lake sorts a load by the pool key evaluated as an expression (expr.NewDottedExpr: `a.b`
+// indexes records *and maps* and looks through unions), and the pruner later compares a
+// predicate on that same expression with the min/max stored for each object and seek-index
+// entry.  If the writers take the key with zed.Value.DerefPath instead - which only descends
+// through records and yields null for anything else - then a value whose key lives in a map or a
+// union is recorded as key null: the object's range does not contain the key the query's
+// predicate sees, and the object (or the seek range) is pruned although it holds matching values.
+func runBoundsUseSortEvaluator(c *Ctx, rule string) {
+	p := c.P
+	c.Rule(rule, "no writer of the lake takes the pool key of a value with zed.Value.DerefPath (records only): bounds stored for pruning must come from the evaluator the sort and the query use (expr.NewDottedExpr, which also indexes maps and unions); witness: the import comparator is built from the sort expression")
+	witness := false
+	for _, fn := range p.FuncsIn("lake") {
+		if fn.Name() == "ImportComparator" {
+			witness = true
+		}
+	}
+	if !witness {
+		c.Undecided(rule, "lake.ImportComparator", "witness does not resolve")
+	}
+	n := 0
+	for _, fn := range p.FuncsIn("lake", "lake/data", "lake/seekindex", "runtime/exec", "runtime/sam/op/meta") {
+		if strings.HasSuffix(p.Pos(fn.Pos()), "_test.go") {
+			continue
+		}
+		for _, ci := range allCalls(fn) {
+			if calleeName(ci.Common()) != "(*super.Value).DerefPath" {
+				continue
+			}
+			n++
+			c.Fail(rule, constructName(fn)+" takes the pool key with DerefPath", ci.Pos(), "the key recorded for pruning is taken with Value.DerefPath, which yields null unless every step is a record, while the sort and the query evaluate the key as an expression that also indexes maps and unions: with pool key a.b, the load {a:{b:7}} {a:|{\"b\":1}|} {a:{b:5}} is stored with min null, `from p | a.b == 1` returns nothing although `from p | a.b >= 1` returns the map value, and `delete where a.b == 1` fails with an empty transaction")
+		}
+	}
+	if n == 0 {
+		c.OK(rule, "pool key extraction in the lake writers", token.NoPos, "no DerefPath on the write path")
+	}
+}
+
+// ---- C10-J3: the join reuses its cached right-hand set under the join's own key comparison.
+//
+// join.Op.getJoinSet keeps the right records of the current key and hands them to every left
+// record "with the same key".  Same must mean what the join's comparator means (it treats 1,
+// 1(uint64) and 1. as equal, as the sorts on both inputs do): a cheaper identity test (type and
+// bytes) misses the cache for a left record whose key is equal but of another type, after the
+// right records for it were already consumed - inner joins lose pairs, anti joins emit matches.
+func runJoinCacheUsesComparator(c *Ctx, rule string) {
+	p := c.P
+	c.Rule(rule, "in join.Op.getJoinSet every return of the cached join set is control-dependent on a call of the operator's own comparator (the `compare` field): keys that the join's order treats as equal share the cached right-hand records")
+	fn := p.Func("(*runtime/sam/op/join.Op).getJoinSet")
+	if fn == nil {
+		c.Undecided(rule, "(*runtime/sam/op/join.Op).getJoinSet", "anchor does not resolve")
+		return
+	}
+	isFieldLoadOf := func(v ssa.Value, name string) bool {
+		l, ok := stripConv(v).(*ssa.UnOp)
+		if !ok || l.Op != token.MUL {
+			return false
+		}
+		fa, ok := l.X.(*ssa.FieldAddr)
+		return ok && fieldVarOf(fa) != nil && fieldVarOf(fa).Name() == name
+	}
+	n := 0
+	for _, b := range fn.Blocks {
+		for _, in := range b.Instrs {
+			ret, ok := in.(*ssa.Return)
+			if !ok || len(ret.Results) == 0 || !isFieldLoadOf(returnOperand(ret, 0), "joinSet") {
+				continue
+			}
+			n++
+			byCmp := false
+			for d := b; d != nil; d = d.Idom() {
+				id := d.Idom()
+				if id == nil || len(id.Instrs) == 0 {
+					continue
+				}
+				iff, ok := id.Instrs[len(id.Instrs)-1].(*ssa.If)
+				if !ok {
+					continue
+				}
+				if dependsOn(iff.Cond, func(v ssa.Value) bool {
+					call, ok := v.(*ssa.Call)
+					return ok && !call.Common().IsInvoke() && isFieldLoadOf(call.Common().Value, "compare")
+				}) {
+					byCmp = true
+				}
+			}
+			if byCmp {
+				c.OK(rule, "getJoinSet returns the cached set", ret.Pos(), "under a test of o.compare")
+			} else {
+				c.Fail(rule, "getJoinSet returns the cached set", ret.Pos(), "the cached right-hand records are reused without consulting the join's comparator: a left key that is equal in the join's order but differs in type or bytes (1 and 1.) misses the cache after its right matches were consumed, so an inner join loses the pair and an anti join emits a row that has a match - the result differs from the naive nested-loop join")
+			}
+		}
+	}
+	if n == 0 {
+		c.Undecided(rule, "(*runtime/sam/op/join.Op).getJoinSet", "no return of the cached join set found")
+	}
+}
+
+// ---- C13-N1: a revision that parses as a commit ID is a commit ID.
+//
+// `from pool@<commit id>` is the immutable way to address a snapshot.  The semantic analyzer may
+// ask the lake to resolve the revision string as a *name* (branch, tag) only after the string
+// failed to parse as an ID; otherwise a branch that carries an ID-shaped name redirects an
+// ID-addressed query to that branch's moving tip.
+func runIDBeforeName(c *Ctx, rule string) {
+	p := c.P
+	c.Rule(rule, "in the semantic analyzer a caller-supplied revision string is handed to the name resolver (Source.CommitObject) only on the error edge of lakeparse.ParseID of that string: what parses as a commit ID always addresses that commit")
+	n := 0
+	for _, fn := range p.FuncsIn("compiler/semantic") {
+		for _, ci := range allCalls(fn) {
+			cc := ci.Common()
+			if calleeName(cc) != "(*compiler/data.Source).CommitObject" {
+				continue
+			}
+			name := cc.Args[len(cc.Args)-1]
+			if _, isConst := stripConv(name).(*ssa.Const); isConst {
+				continue // a fixed default ("main")
+			}
+			n++
+			construct := constructName(fn) + " resolves a revision by name"
+			blk := ci.(ssa.Instruction).Block()
+			ok := false
+			for d := blk; d != nil; d = d.Idom() {
+				id := d.Idom()
+				if id == nil || len(id.Instrs) == 0 {
+					continue
+				}
+				iff, isIf := id.Instrs[len(id.Instrs)-1].(*ssa.If)
+				if !isIf {
+					continue
+				}
+				bo, isBin := iff.Cond.(*ssa.BinOp)
+				if !isBin || bo.Op != token.NEQ || !(isNilConst(bo.X) || isNilConst(bo.Y)) {
+					continue
+				}
+				e := bo.X
+				if isNilConst(e) {
+					e = bo.Y
+				}
+				ex, isEx := e.(*ssa.Extract)
+				if !isEx {
+					continue
+				}
+				call, isCall := ex.Tuple.(*ssa.Call)
+				if !isCall || calleeName(call.Common()) != "lakeparse.ParseID" || stripConv(call.Common().Args[0]) != stripConv(name) {
+					continue
+				}
+				if id.Succs[0].Dominates(blk) && len(id.Succs[0].Preds) == 1 {
+					ok = true
+				}
+			}
+			if ok {
+				c.OK(rule, construct, ci.Pos(), "only after ParseID of the same string failed")
+			} else {
+				c.Fail(rule, construct, ci.Pos(), "the revision string is resolved as a name without ParseID having failed on it first: once a branch is named like a commit ID, `from pool@<that id>` follows the branch's tip instead of the immutable commit, so a query pinned to a commit sees later loads")
+			}
+		}
+	}
+	if n == 0 {
+		c.Undecided(rule, "compiler/semantic", "no resolution of a caller-supplied revision found")
+	}
+}
+
+// ---- C19-N1: the service resolves a pool name through the lake on every request.
+//
+// Direct access resolves `pool` against the pools journal each time it is used.  The service's
+// Request.PoolID must do the same: an id it reports as found has to come from parsing the path
+// element as an id or from lake.Root.PoolID in that very call.  An id remembered from an earlier
+// request is wrong after a rename followed by reuse of the name: the service then vacuums or
+// loads into the pool that used to carry the name.
+func runServiceResolvesNamesFresh(c *Ctx, rule string) {
+	p := c.P
+	c.Rule(rule, "every id that (*service.Request).PoolID reports as found derives, in that call, from lakeparse.ParseID of the path element or from (*lake.Root).PoolID: names are resolved against the pools journal on every request, never from a memo")
+	fn := p.Func("(*service.Request).PoolID")
+	if fn == nil {
+		c.Undecided(rule, "(*service.Request).PoolID", "anchor does not resolve")
+		return
+	}
+	n := 0
+	for _, b := range fn.Blocks {
+		for _, in := range b.Instrs {
+			ret, ok := in.(*ssa.Return)
+			if !ok || len(ret.Results) != 2 {
+				continue
+			}
+			if k, isConst := returnOperand(ret, 1).(*ssa.Const); isConst && k.Value != nil && k.Value.Kind() == constant.Bool && !constant.BoolVal(k.Value) {
+				continue // not found
+			}
+			n++
+			id := returnOperand(ret, 0)
+			fresh := dependsOn(id, func(v ssa.Value) bool {
+				call, ok := v.(*ssa.Call)
+				if !ok {
+					return false
+				}
+				switch calleeName(call.Common()) {
+				case "lakeparse.ParseID", "(*lake.Root).PoolID":
+					return true
+				}
+				return false
+			})
+			if fresh {
+				c.OK(rule, "Request.PoolID reports an id", ret.Pos(), "parsed from the path or resolved by Root.PoolID in this call")
+			} else {
+				c.Fail(rule, "Request.PoolID reports an id", ret.Pos(), "the id returned as found is neither parsed from the path element nor resolved by lake.Root.PoolID in this call (it comes from remembered state): after `rename a b; create a`, requests for pool a through the service still act on the pool now called b (vacuum deletes its objects, a load lands in it) while direct access acts on the new pool")
+			}
+		}
+	}
+	if n == 0 {
+		c.Undecided(rule, "(*service.Request).PoolID", "no successful return found")
+	}
+}
+
+// ---- C16-T2: the pruner is built from the filter itself, not from a rewritten copy.
+//
+// C16-T1 evaluates the tables of buildRangePruner and shows: pruner(min,max) true implies no key
+// in [min,max] satisfies the predicate *that buildRangePruner was given*.  That is a statement
+// about the scan's filter only if the predicate handed to buildRangePruner is the filter.  A
+// rewrite in between (De Morgan, complemented comparators, constant folding) needs its own
+// equivalence argument - including keys that are null or not comparable with the literal, for
+// which `not (k > c)` is true while `k <= c` is false - and T1 does not cover it.  So: the
+// predicate argument of buildRangePruner in newRangePruner is newRangePruner's own parameter,
+// and newRangePruner is called with the caller's parameter.
+func runPrunerBuiltFromFilter(c *Ctx, rule string) {
+	p := c.P
+	c.Rule(rule, "the predicate handed to optimizer.buildRangePruner is the parameter of newRangePruner unchanged, and newRangePruner receives maybeNewRangePruner's parameter unchanged: no rewriting step stands between the scan's filter and the tables C16-T1 evaluates")
+	check := func(fnName_, callee string) {
+		fn := p.Func(fnName_)
+		if fn == nil {
+			c.Undecided(rule, fnName_, "anchor does not resolve")
+			return
+		}
+		n := 0
+		for _, ci := range allCalls(fn) {
+			if calleeName(ci.Common()) != callee {
+				continue
+			}
+			n++
+			arg := stripConv(ci.Common().Args[0])
+			if prm, ok := arg.(*ssa.Parameter); ok && prm == fn.Params[0] {
+				c.OK(rule, fnName_+" -> "+callee, ci.Pos(), "the predicate is passed on unchanged")
+			} else {
+				c.Fail(rule, fnName_+" -> "+callee, ci.Pos(), "the predicate given to "+callee+" is not the function's own parameter (it is computed from it): the pruner is then built from a rewritten predicate, and the soundness argument of C16-T1 - which is about the predicate buildRangePruner receives - no longer says anything about the scan's filter (for a null or cross-type key `not (k > c)` holds while `k <= c` does not, so a pruner for the rewritten form skips objects holding such keys)")
+			}
+		}
+		if n == 0 {
+			c.Undecided(rule, fnName_, "no call of "+callee+" found")
+		}
+	}
+	check("compiler/optimizer.newRangePruner", "compiler/optimizer.buildRangePruner")
+	check("compiler/optimizer.maybeNewRangePruner", "compiler/optimizer.newRangePruner")
+}
